@@ -45,8 +45,9 @@ class Built:
         mid = d["id"]
         params = []
         anns = {}
+        pnames = d.get("names") or [f"a{i}" for i in range(len(d["pos"]))]
         for i, t in enumerate(d["pos"]):
-            nm = f"a{i}"
+            nm = pnames[i]
             anns[nm] = self.ty(t)
             params.append(nm if i < d["npos_req"] else f"{nm}=DEFAULT")
         if d.get("kw"):
@@ -55,10 +56,10 @@ class Built:
                 nm = f"k{k}"
                 anns[nm] = self.ty(t)
                 params.append(nm if req else f"{nm}=DEFAULT")
-        allnames = [f"a{i}" for i in range(len(d["pos"]))] + [f"k{k}" for (k, _, _) in d.get("kw", [])]
-        rec = "LOG.append((%d, {%s}))" % (mid, ", ".join(f"{n!r}: {n}" for n in allnames))
+        allnames = list(pnames) + [f"k{k}" for (k, _, _) in d.get("kw", [])]
+        rec = "LOG.append((%d, {%s}))" % (mid, ", ".join(f"'a{i}': {n}" for i, n in enumerate(pnames)) + "".join(f", 'k{k}': k{k}" for (k, _, _) in d.get("kw", [])))
         body = d.get("body", "ret")
-        supplied = "[x for x in (%s) if x is not DEFAULT]" % (", ".join(f"a{i}" for i in range(len(d["pos"]))) + ("," if d["pos"] else ""))
+        supplied = "[x for x in (%s) if x is not DEFAULT]" % (", ".join(pnames) + ("," if d["pos"] else ""))
         kwsup = "{%s}" % ", ".join(f"'k{k}': k{k}" for (k, _, _) in d.get("kw", []))
         if body == "ret":
             tail = f"return ('ret', {mid})"
@@ -68,21 +69,29 @@ class Built:
             # starred calls are not rewritten by ovld: use explicit arity instead
             npos = len(d["pos"])
             if d["npos_req"] == npos and all(req for (_, _, req) in d.get("kw", [])):
-                args = ", ".join([f"a{i}" for i in range(npos)] + [f"k{k}=k{k}" for (k, _, _) in d.get("kw", [])])
+                args = ", ".join(list(pnames) + [f"k{k}=k{k}" for (k, _, _) in d.get("kw", [])])
                 tail = f"return call_next({args})"
             else:
                 tail = f"return ('ret', {mid})"
         elif body == "nextv":
             npos = len(d["pos"])
             if d["npos_req"] == npos and not d.get("kw"):
-                args = ", ".join(f"ALT(a{i})" for i in range(npos))
+                args = ", ".join(f"ALT({n})" for n in pnames)
+                tail = f"return call_next({args})"
+            else:
+                tail = f"return ('ret', {mid})"
+        elif body == "nexto":
+            # call_next with an instance of ANOTHER class at position 0 (a key this table may never have resolved)
+            npos = len(d["pos"])
+            if d["npos_req"] == npos and not d.get("kw"):
+                args = ", ".join(["OTHER(%s)" % pnames[0]] + list(pnames[1:]))
                 tail = f"return call_next({args})"
             else:
                 tail = f"return ('ret', {mid})"
         elif body == "rec":
             npos = len(d["pos"])
             if d["npos_req"] == npos and not d.get("kw"):
-                args = ", ".join(f"a{i}" for i in range(npos))
+                args = ", ".join(pnames)
                 tail = (f"if len(RECUR) < 1:\n        RECUR.append(1)\n        try:\n            return recurse({args})\n"
                         f"        finally:\n            RECUR.pop()\n    return ('ret', {mid})")
             else:
@@ -92,11 +101,19 @@ class Built:
         src = f"def m{mid}({', '.join(params)}):\n    {rec}\n    {tail}\n"
         fname = f"<verif-prog-{next(_file_ids)}>"
         linecache.cache[fname] = (len(src), None, src.splitlines(True), fname)
-        glb = {"LOG": self.log, "RECUR": [], "ALT": alt_value, "DEFAULT": DEFAULT, "call_next": call_next, "recurse": recurse, "__name__": "verif_prog"}
+        glb = {"LOG": self.log, "RECUR": [], "ALT": alt_value, "OTHER": self.other_instance, "DEFAULT": DEFAULT, "call_next": call_next, "recurse": recurse, "__name__": "verif_prog"}
         exec(compile(src, fname, "exec"), glb)
         fn = glb[f"m{mid}"]
         fn.__annotations__ = anns
         return fn
+
+    def other_class(self, cid):
+        """a fixed permutation of the instantiable classes of the world"""
+        inst = [c for c in [0, 2, 3] + self.w.user_ids() if self.w.instantiable(c)]
+        return inst[(inst.index(cid) + 1) % len(inst)] if cid in inst else inst[0]
+
+    def other_instance(self, v):
+        return self.w.instance(self.other_class(self.w.cid(type(v))), 7)
 
     def register(self, d):
         fn = self.make_fn(d)
